@@ -124,6 +124,41 @@ def gen_directed():
     return out
 
 
+def gen_multi(rng, n):
+    """several connections open at once (single redundancy group): a connection that was started and was then deactivated by another
+    connection's STARTDT must not transmit I-frames any more, and an I-frame sent to it closes it -- whichever slots the connections
+    occupy and whichever of them have gone meanwhile"""
+    out = []
+    for i in range(n):
+        k = rng.choice([1, 3, 12])
+        lines = header(k, 8, 0)
+        nc = rng.range(2, 4)
+        for c in range(1, nc):
+            lines += ["connect c%d 10.0.0.%d:%d" % (c, c + 1, 1000 + c), "tick"]
+        alive = list(range(nc))
+        cnt = dict(p=0, e=0)
+        seq = []
+        for _ in range(rng.range(4, 14)):
+            r = rng.below(10)
+            c = rng.choice(alive)
+            if r < 3:
+                lines += stim_lines("startdt", c, cnt); seq.append("startdt%d" % c)
+            elif r < 5:
+                lines += stim_lines("enq", c, cnt) + ["tick"]; seq.append("enq")
+            elif r < 6 and len(alive) > 2:
+                alive.remove(c)
+                lines += ["peerclose c%d" % c, "tick 2"]; seq.append("disc%d" % c)
+            elif r < 8:
+                lines += stim_lines("i_good", c, cnt); seq.append("i%d" % c)
+            elif r < 9:
+                lines += stim_lines("s_good", c, cnt); seq.append("s%d" % c)
+            else:
+                lines += stim_lines("stopdt", c, cnt); seq.append("stopdt%d" % c)
+        lines.append("tick 3")
+        out.append(("m%d" % i, lines, ("multi",) + tuple(seq)))
+    return out
+
+
 def gen_random(rng, n, length):
     out = []
     for i in range(n):
@@ -228,6 +263,11 @@ def oracle(ck, sid, lines, out):
                     for f in frames:
                         a = apci.parse_apdu(f)
                         if a["kind"] == "U" and a["u"] == 0x0b:
+                            # single redundancy group (the mode of these scripts): the connection whose STARTDT is confirmed becomes
+                            # the started one, every other connection of the server is deactivated by that
+                            for oc, od in st.items():
+                                if oc != ci:
+                                    od["started"] = False
                             c["started"] = True
                             c["stop_pending"] = False
                         elif a["kind"] == "U" and a["u"] == 0x23:
@@ -297,6 +337,9 @@ def run(ck):
         ck.fail("correspondence", "model-build", "extracted model does not build: " + str(e)[:300], {"theorem": "extraction"})
     depth, limit = (3, 1500) if quick else (4, 20000)
     scripts = gen_directed() + gen_exhaustive(depth, rng, limit) + gen_random(rng, 150 if quick else 3000, 60)
+    multi = gen_multi(rng, 60 if quick else 1500)       # the extracted model follows one connection slot: oracle only for these
+    nomodel = {sid for sid, _, _ in multi}
+    scripts += multi
     ck.count("scripts", len(scripts))
     rc = runner.run_batch(h, [(sid, l) for sid, l, _ in scripts], timeout=3600)
     rm = runner.run_batch(m, [(sid, l) for sid, l, _ in scripts], timeout=3600) if m else {}
@@ -309,7 +352,7 @@ def run(ck):
                     {"script": lines, "stderr": o["crash"]["text"]})
             continue
         cout = [l for l in o["out"] if not l.startswith(("sem ", "st ", "q "))]
-        if m and sid in rm:
+        if m and sid in rm and sid not in nomodel:
             mout = rm[sid]["out"]
             if cout != mout and ndiff < 10:
                 ndiff += 1
